@@ -48,6 +48,15 @@ class GeometryMixin:
     geo1: typing.Optional[Geometry1] = None
     geo2: typing.Optional[Geometry2] = None
 
+    @staticmethod
+    def _as_table(arr, index=None) -> pd.DataFrame:
+        """Array-like (or None) argument to the DataFrame form used by the checks."""
+        if arr is None:
+            return pd.DataFrame()
+        if isinstance(arr, pd.DataFrame):
+            return arr
+        return pd.DataFrame(np.asarray(arr), index=index)
+
     def def_geo1(
         self,
         # # MANDATORY
@@ -95,11 +104,11 @@ class GeometryMixin:
         file_dict = {
             "sensors names": sens_names,
             "sensors coordinates": sens_coord,
-            "sensors directions": sens_dir,
-            "sensors lines": sens_lines if sens_lines is not None else pd.DataFrame(),
-            "BG nodes": bg_nodes if bg_nodes is not None else pd.DataFrame(),
-            "BG lines": bg_lines if bg_lines is not None else pd.DataFrame(),
-            "BG surfaces": bg_surf if bg_surf is not None else pd.DataFrame(),
+            "sensors directions": self._as_table(sens_dir, index=sens_coord.index),
+            "sensors lines": self._as_table(sens_lines),
+            "BG nodes": self._as_table(bg_nodes),
+            "BG lines": self._as_table(bg_lines),
+            "BG surfaces": self._as_table(bg_surf),
         }
 
         # check on input
@@ -178,11 +187,11 @@ class GeometryMixin:
             "mapping": sens_map,
             "constraints": cstr if cstr is not None else pd.DataFrame(),
             "sensors sign": sens_sign if sens_sign is not None else pd.DataFrame(),
-            "sensors lines": sens_lines if sens_lines is not None else pd.DataFrame(),
-            "sensors surfaces": sens_surf if sens_surf is not None else pd.DataFrame(),
-            "BG nodes": bg_nodes if bg_nodes is not None else pd.DataFrame(),
-            "BG lines": bg_lines if bg_lines is not None else pd.DataFrame(),
-            "BG surfaces": bg_surf if bg_surf is not None else pd.DataFrame(),
+            "sensors lines": self._as_table(sens_lines),
+            "sensors surfaces": self._as_table(sens_surf),
+            "BG nodes": self._as_table(bg_nodes),
+            "BG lines": self._as_table(bg_lines),
+            "BG surfaces": self._as_table(bg_surf),
         }
 
         # check on input
